@@ -37,6 +37,9 @@ def jobs(tier, seed):
     out.append({'name': 'stats-1x3-int-zones', 'shape': [1, 3], 'stats': ['count', 'sum', 'max'], 'sel': 'none', 'ret': 'pandas.DataFrame', 'inf': False, 'zdtype': 'int32'})
     out.append({'name': 'stats-1x3-int-zones-int-values', 'shape': [1, 3], 'stats': ['mean', 'min', 'count'], 'sel': 'one', 'ret': 'pandas.DataFrame', 'inf': False, 'zdtype': 'int64', 'vdtype': 'int32'})
     out.append({'name': 'stats-1x3-int-zones-dataarray', 'shape': [1, 3], 'stats': ['sum', 'max'], 'sel': 'two', 'ret': 'xarray.DataArray', 'inf': False, 'zdtype': 'uint8', 'vdtype': 'float32'})
+    # zones and values in different memory layouts (values Fortran-ordered, e.g. a transposed view): cells must still be paired by position
+    out.append({'name': 'stats-2x2-values-fortran-order', 'shape': [2, 2], 'stats': ['sum', 'max'], 'sel': 'none', 'ret': 'pandas.DataFrame', 'inf': False, 'vlayout': 'F'})
+    out.append({'name': 'stats-2x2-zones-fortran-order-dataarray', 'shape': [2, 2], 'stats': ['sum'], 'sel': 'none', 'ret': 'xarray.DataArray', 'inf': False, 'zlayout': 'F'})
     out.append({'name': 'stats-2x2-count-sum-max', 'shape': [2, 2], 'stats': ['count', 'sum', 'max'], 'sel': 'none', 'ret': 'pandas.DataFrame', 'inf': False})
     if tier != 'quick':
         for st in ALL:
@@ -90,6 +93,10 @@ def body(ctx, job):
     vals_d = ctx.array('v', (h, w), vdt, nan=not heavy, inf=job['inf'] and not heavy, **({'lo': -4, 'hi': 4} if vdt[0] in 'iu' else {}))
     ys = coords_affine(h, float(h), -1.0)
     xs = coords_affine(w, 3.0, 2.0)
+    if job.get('vlayout') == 'F':
+        vals_d = symnp.asfortranarray(vals_d)
+    if job.get('zlayout') == 'F':
+        zones_d = symnp.asfortranarray(zones_d)
     zones = raster(zones_d, ys=ys, xs=xs, name='zones')
     values = raster(vals_d, ys=ys, xs=xs, name='values', attrs={'res': (2.0, 1.0)})
     nodata = ctx.real('nodata') if not heavy else None
